@@ -227,7 +227,7 @@ func preemptionProfile() *harness.Profile {
 	p := mixedProfile()
 	p.Name = "preemption"
 	p.Conf = harness.ConfOpts{MaxDepth: 2, Quotas: true, Preemption: true, QuotaPreempt: true, FifoOnly: true, WideTrees: true, FewPrioProps: true}
-	p.Weights = harness.With(harness.BaseWeights(), map[string]int{harness.OpAddAsk: 22, harness.OpReportBound: 10, harness.OpAddApp: 8, harness.OpSchedule: 30, harness.OpConfirm: 6, harness.OpRelease: 3,
+	p.Weights = harness.With(harness.BaseWeights(), map[string]int{harness.OpAddAsk: 22, harness.OpReportBound: 10, harness.OpAddApp: 8, harness.OpSchedule: 30, harness.OpConfirm: 3, harness.OpRelease: 3,
 		harness.OpQuotaPre: 8, harness.OpReload: 6, harness.OpUpdNode: 1, harness.OpForeign: 1, harness.OpDecomNode: 1, harness.OpRemoveApp: 1})
 	p.NodeLo, p.NodeHi, p.AskLo, p.AskHi = 6, 14, 1, 5
 	p.GangProb, p.ReqNodeProb, p.PreemptProb, p.OldAskProb, p.BoundReqNodeProb = 10, 10, 70, 75, 12
